@@ -778,17 +778,34 @@ class Phase(Angle):
             elif phase_out is not None and function is np.floor_divide:
                 return NotImplemented
 
-            fd = np.floor_divide(self.cycle, inputs[1], out=fd_out)
-            corr = Phase.from_angles(inputs[1], factor=fd, out=phase_out)
-            remainder = np.subtract(self, corr, out=corr)
-            fdx = np.floor_divide(remainder.cycle, inputs[1])
+            dividend, divisor = inputs
+            if i_self != 0:
+                # We are the divisor: the dividend needs to become a Phase too.
+                try:
+                    dividend = Phase(dividend.to(u.cycle), subok=True)
+                except Exception:
+                    return NotImplemented
+
+            if isinstance(divisor, Phase):
+                if divisor.imaginary:
+                    return NotImplemented
+                # Keep both parts, so multiples of the divisor stay exact.
+                d_parts = (divisor["int"], divisor["frac"])
+                divisor = divisor.cycle
+            else:
+                d_parts = (divisor, None)
+
+            fd = np.floor_divide(dividend.cycle, divisor, out=fd_out)
+            corr = Phase.from_angles(*d_parts, factor=fd, out=phase_out)
+            remainder = np.subtract(dividend, corr, out=corr)
+            fdx = np.floor_divide(remainder.cycle, divisor)
             # This can likely be optimized...
             # Note: one cannot just loop, because rounding of exact 0.5.
             # TODO: check this method is really correct.
             if np.count_nonzero(fdx):
                 fd += fdx
-                corr = Phase.from_angles(inputs[1], factor=fd, out=corr)
-                remainder = np.subtract(self, corr, out=corr)
+                corr = Phase.from_angles(*d_parts, factor=fd, out=corr)
+                remainder = np.subtract(dividend, corr, out=corr)
 
             if function is np.floor_divide:
                 return fd
